@@ -6,6 +6,7 @@ The rewrite rules (D1..) are documented in DESIGN.md section 3; each application
 counted and reported.  Output: <out>/acpi_verus.rs and <out>/map.json (generated line ->
 function / clause / property tags).
 """
+import copy
 import json
 import os
 import re
@@ -993,6 +994,16 @@ class Splicer:
         spec = ms.fns.get(key)
         if spec:
             spec.used = True
+        elif impl_ctx and impl_ctx.startswith('AmlSink for ') and it.body is not None and ms.fns.get('%s::byte' % impl_ctx):
+            # an override of a defaulted sink method (word/dword/qword/vec) that has no contract of its
+            # own is still bound by the trait's: verify its body against the inherited postcondition
+            # (an external_body would *assume* it).  Tagged like the impl's `byte`.
+            sib = ms.fns['%s::byte' % impl_ctx]
+            spec = FnSpec(key)
+            spec.tags = sorted(set(sib.tags or []) | set(t for (tg, _) in sib.ensures for t in tg) | {'C14'})
+            spec.used = True
+            spec.inherited = True
+            out.count('sink method override without own contract: verified against the inherited trait contract')
         attrs = [a for a in attrs if not re.match(r'#\[cfg\(target_pointer_width', a)]
         params = sig.params
         mut_self = bool(re.match(r'\s*mut\s+self\b', params))
@@ -1032,6 +1043,8 @@ class Splicer:
                    overflow_tags=(spec.overflow_tags if spec else None),
                    src_line=it.line, has_body=it.body is not None)
         self.fn_index.append(rec)
+        if getattr(spec, 'inherited', False):
+            rec['nohints'] = 'new override of a defaulted sink method: no proof script exists for it'
         if it.body is None:
             # trait method declaration
             out.emit('\n'.join(attrs + [header]))
@@ -1050,13 +1063,31 @@ class Splicer:
             return
         start_line = len(out.lines) + 1
         degrade_reason = None
-        if fq in self.degrade:
-            degrade_reason = self.degrade[fq]
+        dg = self.degrade.get(fq)
+        nohints_reason = None
+        if isinstance(dg, dict) and dg.get('level') == 'nohints':
+            nohints_reason = dg.get('reason', '')
+            dg = None
+        if dg is not None:
+            degrade_reason = dg
         else:
-            try:
-                body = self.rewrite_body(it, key, ms, spec, fq, mut_self, reserved, raw_params)
-            except SpliceError as e:
-                degrade_reason = str(e)
+            if nohints_reason is None:
+                try:
+                    body = self.rewrite_body(it, key, ms, spec, fq, mut_self, reserved, raw_params)
+                except SpliceError as e:
+                    nohints_reason = str(e)
+            if nohints_reason is not None:
+                # the proof script (hints / ghost lets) no longer applies to this function's text.
+                # First fall back to the bare contract: requires/ensures (and loop invariants) without
+                # the in-body proof hints.  If the solver proves it unaided nothing is lost.
+                bare = copy.copy(spec)
+                bare.hints, bare.top, bare.end = [], [t for t in spec.top if t.strip().startswith('broadcast use')], []
+                bare.loops = {n: dict(ls, top=[], end=[]) for n, ls in spec.loops.items()}
+                try:
+                    body = self.rewrite_body(it, key, ms, bare, fq, mut_self, reserved, raw_params)
+                    rec['nohints'] = nohints_reason
+                except SpliceError as e:
+                    degrade_reason = nohints_reason + ' ; without hints: ' + str(e)
         if degrade_reason is not None:
             # the proof script (hints / invariants / rewrite anchors) no longer applies to this
             # function's text: its contract is kept as an *assumption* so that the rest of the crate
